@@ -956,6 +956,11 @@ class CallMixin(object):
             if owner:
                 st, it = self.call_method(st, acc, src, "__iter__", [], {}, node)
                 return self.bi_list(st, acc, [it], {}, node)
+        if src.kind == "dictview" or (src.kind == "ref" and src.cls == "set"):
+            seq = self.iterable_to_seq(st, acc, src, node)
+            if src.kind == "dictview" and src.py[0] == "keys":
+                return self.bi_list(st, acc, [seq], {}, node)     # a copy of the key list
+            return st, seq
         raise Undecided("list(%r)" % (src,))
 
     def bi_tuple(self, st, acc, args, kwargs, node):
@@ -1298,10 +1303,43 @@ class CallMixin(object):
                     st.pc[:] = st2.pc
                     st.heap, st.ghost, st.alloc = st2.heap, st2.ghost, st2.alloc
                 return self.iterable_to_seq(st, acc, it, node)
-        if v.kind == "dictview" and v.py[0] == "keys":
-            d = v.py[1]
-            kz = self.heap_array(st, "$keys")[self.as_ref(d)]
-            return SV(kz, "ref", cls="list")
+        if v.kind == "dictview":
+            what, d = v.py
+            u = self.u
+            r = self.as_ref(d)
+            kz = self.heap_array(st, "$keys")[r]
+            st.assume(u.is_R(kz))
+            keys = SV(kz, "ref", cls="list", elem=(d.elem.split("->")[0] if d.elem and "->" in d.elem else None))
+            if what == "keys":
+                return keys
+            n = self.seq_len(st, keys)
+            st.assume(n >= 0)
+            res = self.new_symbolic_seq(st, "list", None, length=n)
+            k = u.fresh_int("k")
+            ke = self.seq_elems(st, keys)
+            re_ = self.seq_elems(st, res)
+            vals = self.heap_array(st, "$val")[r]
+            if what == "values":
+                st.assume(z3.ForAll([k], z3.Implies(z3.And(0 <= k, k < n), re_(k) == vals[ke(k)])))
+                return res
+            raise Undecided("list(dict.items())")
+        if v.kind == "ref" and v.cls == "set":
+            # arbitrary but fixed enumeration order of the set's members
+            u = self.u
+            r = self.as_ref(v)
+            has = self.heap_array(st, "$has")[r]
+            res = self.new_symbolic_seq(st, "list", v.elem)
+            n = self.seq_len(st, res)
+            el = self.seq_elems(st, res)
+            k = u.fresh_int("k")
+            j = u.fresh_int("j")
+            x = u.fresh_val("x")
+            st.assume(z3.ForAll([k], z3.Implies(z3.And(0 <= k, k < n), has[el(k)])))
+            pos = u.fresh("setpos", z3.ArraySort(u.Val, u.Int))
+            st.assume(z3.ForAll([x], z3.Implies(has[x], z3.And(0 <= pos[x], pos[x] < n, el(pos[x]) == x))))
+            st.assume(z3.ForAll([k], z3.Implies(z3.And(0 <= k, k < n), pos[el(k)] == k)))
+            st.assume((n == 0) == (self.heap_array(st, "$len")[r] == 0))
+            return res
         raise Undecided("not iterable as a sequence: %r" % (v,))
 
     # ------------------------------------------------------------------
